@@ -245,13 +245,16 @@ def s_stretch(N, theta_s, theta_b, stagger="rho", Vstretching=1):
 
     if Vstretching == 2:
         a, b = 1.0, 1.0
-        Csur = (1 - np.cosh(theta_s * S)) / (np.cosh(theta_s) - 1)
+        # (1 - cosh(theta_s*S)) / (cosh(theta_s) - 1), written with cosh(x) - 1 = 2*sinh(x/2)**2
+        # to avoid the cancellation for small theta_s
+        Csur = -((np.sinh(0.5 * theta_s * S) / np.sinh(0.5 * theta_s)) ** 2)
         Cbot = np.sinh(theta_b * (S + 1)) / np.sinh(theta_b) - 1
         mu = (S + 1) ** a * (1 + (a / b) * (1 - (S + 1) ** b))
         return mu * Csur + (1 - mu) * Cbot
 
     if Vstretching == 4:
-        C = (1 - np.cosh(theta_s * S)) / (np.cosh(theta_s) - 1)
+        # See Vstretching = 2 for the form of the surface function
+        C = -((np.sinh(0.5 * theta_s * S) / np.sinh(0.5 * theta_s)) ** 2)
         C = (np.exp(theta_b * C) - 1) / (1 - np.exp(-theta_b))
         return C
 
